@@ -258,3 +258,40 @@ impl std::str::FromStr for ParsedTestCase {
         ParsedTestCase::parse(input)
     }
 }
+
+#[cfg(feature = "verif-hooks")]
+impl ParsedTestCase {
+    /// Canonical dump of the private parts of a parsed test case (verification hook)
+    pub fn verif_dump(&self) -> String {
+        use crate::verif_hooks::{dump_expr, dump_named_spans, dump_stmts};
+        let mut out = String::new();
+        out.push_str("stmts=");
+        dump_stmts(&self.stmts, &mut out);
+        out.push_str(" sigspans=[");
+        for (i, s) in self.signal_spans.iter().enumerate() {
+            if i > 0 {
+                out.push(' ');
+            }
+            out.push_str(&format!("({} {})", s.start, s.end));
+        }
+        out.push_str("] expin=");
+        dump_named_spans(&self.expected_inputs, &mut out);
+        out.push_str(" reads=");
+        dump_named_spans(&self.read_outputs, &mut out);
+        out.push_str(" virt=[");
+        for (i, (v, span)) in self.virtual_signals.iter().enumerate() {
+            if i > 0 {
+                out.push(' ');
+            }
+            let mut name = String::from("h");
+            for b in v.name.bytes() {
+                name.push_str(&format!("{b:02x}"));
+            }
+            out.push_str(&format!("({} {} {} ", name, span.start, span.end));
+            dump_expr(&v.expr, &mut out);
+            out.push(')');
+        }
+        out.push(']');
+        out
+    }
+}
